@@ -382,13 +382,19 @@ ArgLoop(s, i, name, acc, st) ==
                  ELSE Fail(j, "function-expr: ',' or ')' expected")
 
 \* function-argument = literal / filter-query / logical-expr / function-expr
+\* (the literal alternative is only tried where a literal can start, so that a
+\*  failing nested argument is not parsed twice at every nesting level)
+LitStart(s, i) ==
+    LET c == At(s, i)
+    IN  \/ c = 39 \/ c = 34 \/ IntStart(c)
+        \/ (IsLc(c) /\ At(s, FnEnd(s, i)) # 40)
 Arg(s, i, st) ==
     LET r   == ParseOr(s, i, st)
         rj  == At(s, SkipB(s, r.i))
         l   == Primary(s, i, FALSE, st)
         lj  == At(s, SkipB(s, l.i))
     IN  IF r.ok /\ (rj = 44 \/ rj = 41) THEN r
-        ELSE IF l.ok /\ l.v.t = "lit" /\ (lj = 44 \/ lj = 41) THEN l
+        ELSE IF LitStart(s, i) /\ l.ok /\ l.v.t = "lit" /\ (lj = 44 \/ lj = 41) THEN l
         ELSE IF ~r.ok THEN r
         ELSE Fail(SkipB(s, r.i), "function-expr: ',' or ')' expected")
 
